@@ -72,7 +72,53 @@ def job_join(name):
         ex.call(st, "w_join_" + name, [sec, fs, pout], k)
     return ex.execute(h)
 
+GLUE = ("ms", "fs", "min64")
+def job_glue(name, which):
+    """the public templates that use split_seconds: time_zone::lookup / next_transition / prev_transition (time_point<D>) and
+    convert(time_point<D>, tz) hand the seconds overload exactly floor(tp) (toward the past) and return its answer unchanged"""
+    bits, num, den = PANEL[name]
+    mod = module()
+    ex = symex.Executor(mod, tlimit_ms=120000)
+    dm = build.demangle(list(mod.decls))
+    def h(ex, st):
+        c = ex.input("c", bits)
+        if num > 1: ex.assume(st, in_range_s(mul(c, num), 64))
+        want = fdiv(c, den) if den > 1 else mul(c, num)
+        if which == "prev" and den > 1: want = smt.neg(fdiv(smt.neg(c), den))      # a transition at T is previous to T + fraction: ceiling
+        seen = []
+        ans = ex.input("answer", 8, 0, 1); csy = ex.input("cs_year")
+        def rec_tp(a_tp, st2):
+            t = ex.load(st2, Ptr(a_tp.obj, a_tp.off), I64)
+            ex.prove(st2, eq(t, want), "%s(time_point<%s>) forwards %s in seconds" % (which, name, "ceil(tp): every transition strictly before tp stays previous" if which == "prev" else "floor(tp) (toward the past)"))
+            seen.append(1)
+        def c_lookup(ex, st2, a):
+            ret, this, tp = a
+            rec_tp(tp, st2)
+            ex.store_raw(st2, Ptr(ret.obj, ret.off), 8, csy); ex.store_raw(st2, Ptr(ret.obj, smt.add(ret.off, 8)), 8, 257)
+            ex.store_raw(st2, Ptr(ret.obj, smt.add(ret.off, 16)), 8, 0); ex.store_raw(st2, Ptr(ret.obj, smt.add(ret.off, 24)), 8, 0)
+            return None
+        def c_trans(ex, st2, a):
+            this, tp, tr = a
+            rec_tp(tp, st2)
+            return ne(ans, 0)
+        for nm in mod.decls:
+            d = dm[nm]
+            if d.startswith("cctz::time_zone::lookup(std::chrono::time_point"): ex.contracts[nm] = c_lookup
+            if d.startswith("cctz::time_zone::next_transition(std::chrono::time_point") or d.startswith("cctz::time_zone::prev_transition(std::chrono::time_point"): ex.contracts[nm] = c_trans
+        tzo = ex.new_obj(st, 8, "time_zone"); ex.store_raw(st, tzo, 8, 0)
+        out = ex.new_obj(st, 32, "out")
+        def k(st2, rv):
+            ex.prove(st2, len(seen) >= 1, "%s(time_point<%s>) calls the seconds overload" % (which, name))
+            if which in ("next", "prev"):
+                ok = rv if (isinstance(rv, bool) or (smt.is_sym(rv) and rv.sort == "B")) else ne(rv, 0)
+                ex.prove(st2, smt.iff(ok, ne(ans, 0)), "%s_transition(time_point<%s>) returns the seconds overload's answer" % (which, name))
+            else:
+                ex.prove(st2, eq(ex.load(st2, Ptr(out.obj, 0), I64), csy), "%s(time_point<%s>) returns the seconds overload's civil second" % (which, name))
+        ex.call(st, "w_glue_%s_%s" % (which, name), [c, tzo, out], k)
+    return ex.execute(h)
+
 def replay(case):
+    if case.get("kind") == "glue": return glue_panel()
     lib = native(); name = case["name"]; bits, num, den = PANEL[name]
     if case["kind"] == "split":
         c = int(case["c"])
@@ -96,16 +142,39 @@ def replay(case):
     if ok and out.value != fl: return "join_seconds<%s>(%d s) == %d, expected %d" % (name, sec, out.value, fl)
     return None
 
+_gexe = {}
+def glue_panel():
+    """native: the sub-second / coarse overloads of lookup, next_transition, prev_transition, convert in America/New_York against
+    the seconds overloads at floor(tp), around a pre-epoch and a post-epoch transition"""
+    import subprocess
+    if "p" not in _gexe:
+        V = common.VERIF; R = build.REPO + "/src/"
+        out = os.path.join(build.workdir(), "c18_glue")
+        srcs = [R + f for f in ("time_zone_if.cc", "time_zone_fixed.cc", "time_zone_posix.cc", "time_zone_libc.cc", "time_zone_info.cc", "zone_info_source.cc",
+                                "civil_time_detail.cc", "time_zone_impl.cc", "time_zone_lookup.cc", "time_zone_format.cc")]
+        r = subprocess.run(["g++", "-std=c++17", "-O1", "-I" + build.REPO + "/include", "-I" + build.REPO + "/src", os.path.join(V, "replay", "c18_glue.cc")] + srcs + ["-o", out, "-lpthread"], capture_output=True, text=True)
+        if r.returncode != 0: raise RuntimeError("replay build failed: " + r.stderr[-1200:])
+        _gexe["p"] = out
+    env = dict(os.environ); env["TZDIR"] = build.REPO + "/testdata/zoneinfo"
+    p = subprocess.run([_gexe["p"]], capture_output=True, text=True, env=env, timeout=60)
+    return p.stdout.strip()[:400] if p.returncode == 1 else None
+
 def run(tier):
     rep = common.Report("C18", tier, "proof")
     mod = module(); rep.add_module("wrap/seconds.cc", mod)
     jobs = [("split:" + n, job_split, {"name": n}) for n in PANEL] + [("join:" + n, job_join, {"name": n}) for n in PANEL]
+    jobs += [("glue-%s:%s" % (w, n), job_glue, {"name": n, "which": w}) for n in GLUE for w in ("lookup", "next", "prev", "convert")]
     results = common.run_jobs(jobs)
     rep.add_jobs(results)
     for r in results:
         kind, name = r["name"].split(":")
         for fobj in r["failed"]:
             m = fobj["model"]
+            if kind.startswith("glue"):
+                w = glue_panel()
+                if w: rep.violation("glue:" + w[:80], w + "  [%s: %s]" % (r["name"], fobj["desc"]), {"kind": "glue"})
+                else: rep.spurious.append({"job": r["name"], "obligation": fobj["desc"], "model": m})
+                continue
             cands = []
             if kind == "split":
                 c0 = m.get("c", 0); cands = [{"kind": "split", "name": name, "c": c} for c in (c0, -c0, c0 - 1, c0 + 1, -1, -PANEL[name][2] - 1)]
@@ -120,6 +189,7 @@ def run(tier):
             else: rep.spurious.append({"job": r["name"], "obligation": fobj["desc"], "model": m})
     rep.bounds = ["every count of the representation (no bound) within the stated premise: the whole-second value fits time_point<seconds>",
                   "femtosecond remainder in [0, 1s)"]
+    rep.bounds.append("glue: lookup/next_transition/prev_transition/convert for time_point<D>, D in %s" % list(GLUE))
     rep.outside = ["range check of sub-second targets in join_seconds (documented TODO #199; not part of C18's statement)",
                    "the %E#S/%E#f digit scaling of format() is covered under C08"]
     rep.assumptions = ["std::chrono (libstdc++ headers) is executed from its own IR as emitted in the wrapper TU, no model"]
